@@ -207,7 +207,22 @@ func TestVerifC04(t *testing.T) {
 				hdJoinOp(2, 1, 2), {K: "drain"},
 				hdJoinOp(1, 1, 1), hdJoinOp(1, 2, 1),
 				{K: "drain"}}
-			return []*hdCase{{Id: 0, Mode: 2, Async: true, Ops: ghost, Finding: "C04/observers/cross-subject-reorder"},
+			// requests of the backend for one room that overtake each other on the bus: each kind keeps its own
+			// "newer than the last one of this kind" rule, so a delete is not dropped because a later message came first
+			over := []hdOp{{K: "connect", C: 1}, {K: "connect", C: 2}, {K: "hello", C: 1, B: 0, U: 1}, {K: "hello", C: 2, B: 0, U: 2},
+				hdJoinOp(1, 1, 1), {K: "drain"}, hdJoinOp(2, 1, 2), {K: "drain"},
+				{K: "api", B: 0, SignAs: 0, R: 1, Api: "delete"},
+				{K: "api", B: 0, SignAs: 0, R: 1, Api: "message", Tag: 9},
+				{K: "deliver", Subj: 1}, // the message first
+				{K: "drain"}}
+			over2 := []hdOp{{K: "connect", C: 1}, {K: "connect", C: 2}, {K: "hello", C: 1, B: 0, U: 1}, {K: "hello", C: 2, B: 0, U: 2},
+				hdJoinOp(1, 1, 1), {K: "drain"}, hdJoinOp(2, 1, 2), {K: "drain"},
+				{K: "api", B: 0, SignAs: 0, R: 1, Api: "update", Tag: 1},
+				{K: "api", B: 0, SignAs: 0, R: 1, Api: "incallall", InCall: 7},
+				{K: "deliver", Subj: 1},
+				{K: "drain"}, {K: "msg", C: 1, To: &hdRecipient{T: "call"}, Tag: 10}, {K: "drain"}}
+			return []*hdCase{{Id: 2, Mode: 2, Async: true, Ops: over}, {Id: 3, Mode: 2, Async: true, Ops: over2},
+				{Id: 0, Mode: 2, Async: true, Ops: ghost, Finding: "C04/observers/cross-subject-reorder"},
 				{Id: 1, Mode: 2, Async: true, Ops: stale, Finding: "C04/observers/stale-joined-notice"}}
 		}})
 }
@@ -251,7 +266,16 @@ func TestVerifC05(t *testing.T) {
 				{K: "ctl", C: 1, To: &hdRecipient{T: "session", Id: &hdIdRef{T: "vpub", C: 1, V: 7}}, Tag: 43},
 				{K: "msg", C: 2, To: &hdRecipient{T: "session", Id: &hdIdRef{T: "vpub", C: 1, V: 7}}, Tag: 44},
 				{K: "msg", C: 2, To: &hdRecipient{T: "room"}, Tag: 45}, {K: "msg", C: 1, To: &hdRecipient{T: "room"}, Tag: 46}}
-			return []*hdCase{{Id: 0, Mode: 1, Ops: ops}, {Id: 1, Mode: 1, Ops: vo}}
+			// a guest (no authenticated user id) whose user id comes from the room's session data: that id is the
+			// one receivers are shown, for messages and control messages alike
+			jsu := hdJoinOp(1, 1, 1)
+			jsu.SU = 3
+			guest := []hdOp{{K: "connect", C: 1}, {K: "connect", C: 2}, {K: "connect", C: 3}, {K: "connect", C: 4},
+				{K: "hello", C: 1, B: 0, U: 0}, {K: "hello", C: 2, B: 0, U: 2}, {K: "hello", C: 3, B: 0, U: 2}, {K: "hello", C: 4, B: 1, U: 2},
+				jsu, hdJoinOp(2, 1, 2), hdJoinOp(3, 1, 3), hdJoinOp(4, 1, 4)}
+			guest = append(guest, all(1, 800)...)
+			guest = append(guest, hdOp{K: "msg", C: 2, To: &hdRecipient{T: "user", U: 3}, Tag: 850}, hdOp{K: "msg", C: 2, To: hdToSession(1), Tag: 851})
+			return []*hdCase{{Id: 0, Mode: 1, Ops: ops}, {Id: 1, Mode: 1, Ops: vo}, {Id: 2, Mode: 1, Ops: guest}}
 		}})
 }
 
@@ -308,7 +332,21 @@ func TestVerifC06(t *testing.T) {
 				{K: "tick", O: 40},
 				{K: "connect", C: 4}, {K: "hello", C: 4, Ht: "resume", Id: &hdIdRef{T: "priv", C: 2}},
 				{K: "msg", C: 1, To: &hdRecipient{T: "room"}, Tag: 6}}
-			return []*hdCase{{Id: 0, Mode: 1, Ops: ops}, {Id: 1, Mode: 1, Ops: gone}, {Id: 2, Mode: 1, Ops: chat}, {Id: 3, Mode: 1, Ops: lost}}
+			// a disinvite / a bye (kick) waiting in the queue ends the session when the resume delivers it
+			dis := []hdOp{{K: "connect", C: 1}, {K: "connect", C: 2}, {K: "hello", C: 1, B: 0, U: 1}, {K: "hello", C: 2, B: 0, U: 2},
+				hdJoinOp(1, 1, 1), hdJoinOp(2, 1, 2), {K: "drop", C: 2},
+				{K: "msg", C: 1, To: hdToSession(2), Tag: 21},
+				{K: "api", B: 0, SignAs: 0, R: 1, Api: "disinvite", RawRS: true, Users: []hdApiUser{{RS: 2}}},
+				{K: "msg", C: 1, To: hdToSession(2), Tag: 22},
+				{K: "connect", C: 3}, {K: "hello", C: 3, Ht: "resume", Id: &hdIdRef{T: "priv", C: 2}},
+				{K: "connect", C: 4}, {K: "hello", C: 4, Ht: "resume", Id: &hdIdRef{T: "priv", C: 2}}}
+			kick := []hdOp{{K: "connect", C: 1}, {K: "connect", C: 2}, {K: "hello", C: 1, B: 0, U: 1}, {K: "hello", C: 2, B: 0, U: 2},
+				hdJoinOp(1, 1, 1), hdJoinOp(2, 1, 2), {K: "drop", C: 2},
+				hdJoinOp(1, 2, 2), // takes over the Nextcloud session id of the disconnected session: it is kicked
+				{K: "connect", C: 3}, {K: "hello", C: 3, Ht: "resume", Id: &hdIdRef{T: "priv", C: 2}},
+				{K: "connect", C: 4}, {K: "hello", C: 4, Ht: "resume", Id: &hdIdRef{T: "priv", C: 2}}}
+			return []*hdCase{{Id: 0, Mode: 1, Ops: ops}, {Id: 1, Mode: 1, Ops: gone}, {Id: 2, Mode: 1, Ops: chat}, {Id: 3, Mode: 1, Ops: lost},
+				{Id: 4, Mode: 1, Ops: dis}, {Id: 5, Mode: 1, Ops: kick}}
 		}})
 }
 
@@ -403,6 +441,14 @@ func TestVerifC08(t *testing.T) {
 			// a creation in progress while the permission is withdrawn
 			add(true, hdJoinOp(1, 1, 1), hdJoinOp(2, 1, 2), incall, offer(1, "video", 3), perms(1, 4), hdOp{K: "mcudone", Res: "ok"})
 			add(true, hdJoinOp(1, 1, 1), hdJoinOp(2, 1, 2), incall, offer(1, "screen", 0), perms(1, 3), hdOp{K: "mcudone", Res: "ok"})
+			// sections with port 0 need the permission like any other
+			add(false, joinP(1, 1, 1, 0), hdJoinOp(2, 1, 2), incall, offer(1, "video", 1+16), offer(1, "video", 8), offer(1, "video", 16), offer(1, "video", 2+8),
+				perms(1, 1), offer(1, "video", 1+16), offer(1, "video", 16), offer(1, "video", 8))
+			// screen permission withdrawn while media stays
+			add(false, joinP(1, 1, 1, 3, 2), hdJoinOp(2, 1, 2), incall, offer(1, "video", 3), offer(1, "screen", 0), perms(1, 3), offer(1, "screen", 0), perms(1, 2), perms(1))
+			// an internal client in ANOTHER room publishes: its stream cannot be requested from here
+			add(false, hdOp{K: "connect", C: 3}, hdOp{K: "hello", C: 3, Ht: "internal", B: 0}, hdJoinOp(3, 2, 0), hdJoinOp(1, 1, 1), hdJoinOp(2, 1, 2), incall,
+				hdOp{K: "api", B: 0, SignAs: 0, R: 2, Api: "incallall", InCall: 7}, offer(3, "video", 3), req(1, 3, "video"), hdJoinOp(3, 1, 0), req(1, 3, "video"))
 			// requesting a stream: same room and both in the call, in every combination
 			add(false, hdJoinOp(1, 1, 1), hdJoinOp(2, 2, 2), offer(1, "video", 3), req(2, 1, "video"), hdJoinOp(2, 1, 2), req(2, 1, "video"), incall, req(2, 1, "video"),
 				hdOp{K: "api", B: 0, SignAs: 0, R: 1, Api: "incall", RawRS: true, Users: []hdApiUser{{RS: 2, InCall: 0}}}, req(2, 1, "screen"),
@@ -457,6 +503,15 @@ func TestVerifC09(t *testing.T) {
 			// failing creations, and the owner gone for good
 			add(offer(1, "video"), hdOp{K: "mcudone", Res: "fail"}, offer(1, "video"), done)
 			add(offer(1, "video"), hdOp{K: "drop", C: 2}, hdOp{K: "tick", O: 40}, done)
+			// losing one publish permission while keeping another closes exactly the publisher that needs it
+			permsOf := func(rs int, p ...int) hdOp {
+				return hdOp{K: "api", B: 0, SignAs: 0, R: 1, Api: "participants", RawRS: true, Users: []hdApiUser{{RS: rs, InCall: 7, HasP: true, Perm: p}}}
+			}
+			add(permsOf(1, 3, 2), offer(1, "video"), done, offer(1, "screen"), done, permsOf(1, 3), permsOf(1, 2), permsOf(1))
+			add(permsOf(1, 3, 2), offer(1, "screen"), done, offer(1, "video"), done, permsOf(1, 2), offer(1, "video"), permsOf(1, 0, 1, 2), permsOf(1, 0))
+			// objects of a session that is in no room (created before joining / after leaving) go with the session
+			add(offer(1, "video"), done, hdJoinOp(1, 0, 0), offer(1, "video"), done, hdOp{K: "bye", C: 1})
+			add(offer(1, "video"), done, hdJoinOp(1, 0, 0), offer(1, "screen"), done, hdOp{K: "drop", C: 1}, hdOp{K: "tick", O: 40})
 			// two creations in flight for one stream of one session: the later one is closed again, the first stays
 			// (and is closed when its owner leaves)
 			add(offer(1, "video"), done, req(2, 1, "video"), req(2, 1, "video"), done, done, req(2, 1, "video"), leaveCall(2))
